@@ -2,6 +2,9 @@
 // TRUSTED prelude: wrap_model.rs (unit wrap07, C07) - iterator chains and small std methods of `rebuild_value`
 // as functions of the token vector.
 // ---------------------------------------------------------------------------------------------
+/// ASSUMED platform: 64-bit (`indentation as usize` from u32 does not truncate)
+global layout usize is size == 8;
+
 pub type VTok = (SyntaxKind, String);
 /// byte length of a string's text (str::len counts bytes)
 pub uninterp spec fn byte_len(s: Seq<char>) -> nat;
